@@ -1,6 +1,7 @@
 package ws
 
 import (
+	"bytes"
 	"encoding/binary"
 	"fmt"
 	"io"
@@ -98,15 +99,31 @@ func ReadFrame(r io.Reader) (f Frame, err error) {
 		return f, err
 	}
 
-	if f.Header.Length > 0 {
+	if n := f.Header.Length; n > 0 && n <= maxPayloadPrealloc {
 		// int(f.Header.Length) is safe here cause we have
 		// checked it for overflow above in ReadHeader.
-		f.Payload = make([]byte, int(f.Header.Length))
+		f.Payload = make([]byte, int(n))
 		_, err = io.ReadFull(r, f.Payload)
+	} else if n > 0 {
+		// The announced length comes from the peer. Do not trust it with a
+		// single allocation (make panics for lengths that can not be
+		// allocated at all): let the buffer grow as the data arrives.
+		var (
+			buf bytes.Buffer
+			m   int64
+		)
+		m, err = buf.ReadFrom(io.LimitReader(r, n))
+		if err == nil && m < n {
+			err = io.ErrUnexpectedEOF
+		}
+		f.Payload = buf.Bytes()
 	}
 
 	return f, err
 }
+
+// maxPayloadPrealloc is the largest frame payload ReadFrame allocates up front.
+const maxPayloadPrealloc = 1 << 20
 
 // MustReadFrame is like ReadFrame but panics if frame can not be read.
 func MustReadFrame(r io.Reader) Frame {
